@@ -103,12 +103,15 @@ def python_text(sc, ap, order_seed, id_salt=None):
     return PythonCodeGenerator(class_name="Method")(code)
 
 
-def fortran_text(sc, ap, order_seed, id_salt=None):
+PREBUILT_TYPES = {}      # tuple(f_values) -> user type map made at worker start (default index variables)
+
+
+def fortran_text(sc, ap, order_seed, id_salt=None, utm=None):
     import dagrt.codegen.fortran as f
     from simdag.gen.fortran_subset import make_registry, module_preamble, user_type_map
     code = build_dag(sc, ap, order_seed, id_salt=id_salt)
     freg, _twins = make_registry(sc)
-    cg = f.CodeGenerator("m", function_registry=freg, user_type_map=user_type_map(sc),
+    cg = f.CodeGenerator("m", function_registry=freg, user_type_map=utm if utm is not None else user_type_map(sc),
                          module_preamble=module_preamble(sc))
     buf = io.StringIO()
     with contextlib.redirect_stdout(buf):
@@ -152,7 +155,9 @@ def do_history(h):
             python_text(sc, ap, h.get("order_seed"))
         elif kind == "fortran":
             sc, ap = gen_f_script(h["values"])
-            fortran_text(sc, ap, h.get("order_seed"))
+            # (its user types name their index variables themselves: the class-wide counter moves)
+            from simdag.gen.fortran_subset import user_type_map
+            fortran_text(sc, ap, h.get("order_seed"), utm=user_type_map(sc, default_index=True))
         elif kind == "fortran_raises":
             # a generator that fails half-way: user type missing from the map
             import dagrt.codegen.fortran as f
@@ -215,12 +220,13 @@ def job_c15(job):
     if job.get("f_values") is not None:
         try:
             scf, apf = gen_f_script(job["f_values"])
+            utm = PREBUILT_TYPES.get(tuple(job["f_values"])) if job.get("default_index_vars") else None
             if "fortran" in (job.get("reuse") or []):
                 try:
-                    fortran_text(scf, apf, None, None)
+                    fortran_text(scf, apf, None, None, utm=utm)
                 except Exception:
                     pass
-            out["fortran"] = fortran_text(scf, apf, job.get("order_seed"), job.get("id_salt"))
+            out["fortran"] = fortran_text(scf, apf, job.get("order_seed"), job.get("id_salt"), utm=utm)
         except Exception as e:
             out["fortran_exc"] = type(e).__name__ + ":" + str(e)[:120]
     return out
@@ -293,6 +299,15 @@ def main():
     own_uninitialised_memory()
     repo = os.path.realpath(os.environ.get("VERIF_REPO", "/repo"))
     assert os.path.realpath(dagrt.__file__).startswith(repo + os.sep), dagrt.__file__
+    # user types that name their index variables themselves are made once, before anything else happens in
+    # this process (they are part of the method description, like the statements)
+    for job in jobs:
+        if job.get("type") == "c15" and job.get("default_index_vars") and job.get("f_values") is not None:
+            key = tuple(job["f_values"])
+            if key not in PREBUILT_TYPES:
+                from simdag.gen.fortran_subset import user_type_map
+                scf0, _apf0 = gen_f_script(job["f_values"])
+                PREBUILT_TYPES[key] = user_type_map(scf0, default_index=True)
     answers = []
     for job in jobs:
         try:
